@@ -114,6 +114,14 @@ CHECKS = {
          "decimals judged in exact rational arithmetic (sign, 2^-48, subnormal step, infinity only near MAX). to_f64's internals use f64 primitives and are judged per input, not modelled.",
          NOTE_COMMON + " PARTIAL for to_f64: its tolerance is checked per sampled input (IEEE behaviour of BigUint::to_f64, powi, str::parse is outside the model).",
          "Lean 4 proof (all bit patterns) + exact-rational oracle for to_f64 + differential correspondence", "DESIGN.md §5 C14"),
+ "C20": ("Translator half: the extractor re-reads on every run which identifier each implicit-default site references (Context::default, RoundingMode::default, round, sqrt/cbrt/inverse, division, "
+         "exp target and term precision, Display thresholds and integer no-padding limit) and the kernel-checked theorem C20_default_sites_ok fails if any of them is a literal instead of the "
+         "generated constant; model theorems: division uses cfg.precision, Display's notation choice is the stated function of the configured thresholds, the no-padding limit is the configured "
+         "threshold. Correspondence half: the harness is REBUILT under other RUST_BIGDECIMAL_* environments (quick: 3 configurations + default; thorough: every one-factor variation + random "
+         "combinations); each binary must report the requested configuration, Context::default() must carry it, default-context sqrt/cbrt/inverse must equal their explicit twins, and "
+         "division / sqrt / cbrt / round / exp / Display / precision formatting are compared with the models and oracles instantiated at the configured values (small-scope exhaustive division).",
+         NOTE_COMMON + " cargo/build.rs rebuild the library per environment (verified through the configuration each binary reports).",
+         "Lean 4 proof over the re-extracted default sites + differential correspondence under rebuilt configurations", "DESIGN.md §5 C20"),
 }
 
 NOT_YET = "check under construction in this round (not yet claimed); see DESIGN.md §11 order of work"
